@@ -196,9 +196,21 @@ def p_used_externals(I, args, kwargs, node):
     return r
 
 
+def _member(s, x):
+    """membership of x in a set value: a predicate set, a concrete python set of strings, or something else (None: not a set)"""
+    if isinstance(s, SSet):
+        return z3.Select(s.pred, x)
+    if isinstance(s, (set, frozenset)) and all(isinstance(e, str) for e in s):
+        return z3.Or([x == z3.StringVal(e) for e in s]) if s else z3.BoolVal(False)
+    return None
+
+
 def s_subset(I, a, b):
     x = z3.String(I.ctx.fresh_name("x"))
-    return SV(z3.ForAll([x], z3.Implies(z3.Select(a.pred, x), z3.Select(b.pred, x))), BOOL)
+    ma, mb = _member(a, x), _member(b, x)
+    if ma is None or mb is None:
+        return False  # the function no longer returns a set the contract can talk about: the clause does not hold
+    return SV(z3.ForAll([x], z3.Implies(ma, mb)), BOOL)
 
 
 def s_no_match_of_first(I, s, names, k):
@@ -206,14 +218,22 @@ def s_no_match_of_first(I, s, names, k):
     x = z3.String(I.ctx.fresh_name("x"))
     j = z3.Int(I.ctx.fresh_name("j"))
     kk = k.t if isinstance(k, SV) else z3.IntVal(k)
-    return SV(z3.ForAll([x, j], z3.Implies(z3.And(0 <= j, j < kk, GLOB_MATCH(z3.Select(names.arr, j), x)), z3.Not(z3.Select(s.pred, x)))), BOOL)
+    ms = _member(s, x)
+    if ms is None:
+        return False
+    return SV(z3.ForAll([x, j], z3.Implies(z3.And(0 <= j, j < kk, GLOB_MATCH(z3.Select(names.arr, j), x)), z3.Not(ms))), BOOL)
 
 
 def s_no_match_of_any(I, s, names):
     """no member of s matches a member of the set names"""
     x = z3.String(I.ctx.fresh_name("x"))
     n = z3.String(I.ctx.fresh_name("n"))
-    return SV(z3.ForAll([x, n], z3.Implies(z3.And(z3.Select(names.pred, n), GLOB_MATCH(n, x)), z3.Not(z3.Select(s.pred, x)))), BOOL)
+    if isinstance(s, (set, frozenset)) and not s:
+        return True  # nothing is handed to trim at all
+    ms, mn = _member(s, x), _member(names, n)
+    if ms is None or mn is None:
+        return False
+    return SV(z3.ForAll([x, n], z3.Implies(z3.And(mn, GLOB_MATCH(n, x)), z3.Not(ms))), BOOL)
 
 
 SPEC_NS.update({"subset": s_subset, "no_match_of_first": s_no_match_of_first, "no_match_of_any": s_no_match_of_any})
